@@ -199,6 +199,11 @@ class StmtMixin(object):
             self.raise_exit(st, AttributeError, Not(Val.is_R(base.t)), line)
         hv = self.as_v(st, v)
         spec = field_spec(classes, name) if classes else None
+        if spec is not None and spec.region is not None:
+            # a freshly allocated container becomes owned by the field it is first stored into
+            from .model import region_of, REGIONS
+            rid = REGIONS.setdefault(spec.region, len(REGIONS) + 1)
+            self.assume(st, z3.Implies(And(Val.is_R(hv.t), Val.r(hv.t) > self.alloc0), region_of(Val.r(hv.t)) == rid))
         if spec is not None and self.check_schema_stores:
             self.oblige(st, 'schema.store.%s@%d' % (name, line), spec.assumption(hv.t),
                         'value stored into .%s must respect the declared field type %r' % (name, spec))
